@@ -10,6 +10,9 @@ NOTE = ("Trusted base: Coq 8.16.1 kernel (vm_compute in closed-term lemmas, no n
         "canonicalisation); tools/py2v.py for generated units. The theorems are about hand-written Gallina models; the "
         "models are tied to /repo by the correspondence run of this check (and by the translator where stated). ")
 CLAIMED = {
+ 'C16': dict(cat='proof', tech='Coq theorems over Gallina models of the threshold selectors, QuotaSelector and ThresholdOpenList (all inputs, all configurations) + extraction-based correspondence with on-threshold generators',
+             text='Membership characterisations (exact share vs threshold, accept_equal, union for alternatives, any nesting), the closed form of the open-list fill-up loop, exactly-n-distinct-members, jumpers-first-by-votes and no-leapfrog are proved for every input; models tied to threshold.py/openlist.py/approval.py by differential runs whose generators put a candidate exactly on every threshold. Two boundary defects found by the check were repaired with fix: commits.',
+             ref='DESIGN.md 3 C16', note='Modelled, not verified: threshold.py selectors and bracketers, openlist.ThresholdOpenList, Tie.break_by_list, approval.QuotaSelector. Bracketers and break_by_list are tied by correspondence only (no theorem yet).'),
  'C02': dict(cat='proof', tech='Coq theorems over Gallina models of the quota functions (regenerated from quota.py and proved equal to textbook values), QuotaDistributor and LargestRemainder + extraction-based correspondence; capped clause refuted by a machine-checked counterexample',
              text='Textbook quota values proved for all votes>=0, seats>=1 against the code generated from quota.py (incl. round-half-up); whole-quota stage, the three over-award policies, the remainder stage (= get_n_best on exact remainders, at most one seat per party, exact total) proved for every input on the domain where no whole-quota count exceeds a cap. The capped clause is false of the faithful model (C02_caps_refuted, C02_lr_caps_refuted): recorded as known findings C02-capbranch / C02-lr-caps and C02-lr-underfill; two defects repaired by fix: commits.',
              ref='DESIGN.md 3 C02', note='Modelled, not verified: QuotaDistributor.evaluate/_subtract_overaward, LargestRemainder.evaluate (Model/QuotaDistributor.v). Generated from source: component/quota.py. Not modelled: a second tie inside _subtract_overaward (cases skipped and counted).'),
